@@ -83,9 +83,11 @@ structure Run where
 
 /-- the mechanisms of a pipeline on the view `o` -/
 def runPipe (o : ReqObj) (F : Funcs) (pipe : Pipe) (isDefault : Bool) : Run :=
+  if !pipe.authn then { dec := .authentication, isDefault } else
   match runAuthz o F pipe.authz with
   | some d => { dec := d, isDefault, view := some o }
   | none =>
+    if pipe.comm then { dec := .communication, isDefault, view := some o } else
     match runFins o F pipe.fins {} with
     | (u, some d) => { dec := d, isDefault, view := some o, ups := u }
     | (u, none) => { dec := .ok, isDefault, view := some o, ups := u }
@@ -104,17 +106,31 @@ def serveOn (cfg : Cfg) (F : Funcs) (o0 : ReqObj) : Run :=
 /-- the run of the rule set `cfg` on the logical request -/
 def serve (cfg : Cfg) (lr : LReq) : Run := serveOn cfg (funcs cfg.D lr) (obj lr)
 
-/-- What an entry point answers for a run: the decision, the view that was shown, and — if the request is allowed —
-    every collected header with all its values (HTTP list semantics: joined by a comma) and the cookies. A proxy
-    can only forward if the rule names an upstream, which the default rule does not. -/
-def answer (ep : EP) (r : Run) : Outcome :=
+/-- What an entry point answers for a run of the rule set on the logical request `lr` under the response
+    configuration `R`: the decision with the status configured for its class (the same for the HTTP status of the
+    decision / proxy service and the status of Envoy's denied response), the view that was shown, and — if the
+    request is allowed — every collected header with all its values (HTTP list semantics: joined by a comma), the
+    cookies, and what the upstream application is shown: the client's headers, those of a name the pipeline set
+    replaced by the pipeline's value. A proxy can only forward if the rule names an upstream, which the default rule
+    does not. -/
+def answerWith (hand : List Bytes → Bytes) (R : Respond) (lr : LReq) (ep : EP) (r : Run) : Outcome :=
   let seen := r.view.map fun o => ({ obj := o, stable := true } : Seen)
+  let refused (d : Dec) : Outcome :=
+    { dec := d, status := R.code d, seen, upHeaders := [], upCookies := [], upSees := [] }
   match r.dec with
   | .ok =>
-    if ep = .proxy && r.isDefault then { dec := .internal, seen, upHeaders := [], upCookies := [] }
-    else { dec := .ok, seen, upHeaders := r.ups.headers.map fun kv => (kv.1, join comma kv.2),
-           upCookies := r.ups.cookies }
-  | d => { dec := d, seen, upHeaders := [], upCookies := [] }
+    if ep = .proxy && r.isDefault then refused .internal
+    else
+      let handed := r.ups.headers.map fun kv => (kv.1, hand kv.2)
+      { dec := .ok, status := okStatus R ep, seen, upHeaders := handed, upCookies := r.ups.cookies,
+        upSees := overrideHeaders (headersMap lr) handed }
+  | d => refused d
+
+def answer (R : Respond) (lr : LReq) (ep : EP) (r : Run) : Outcome := answerWith (join comma) R lr ep r
+
+/-- the decision of an answer: the decision of the run, except that a proxy cannot forward without upstream -/
+def decAt (ep : EP) (r : Run) : Dec :=
+  if r.dec = .ok ∧ ep = .proxy ∧ r.isDefault = true then .internal else r.dec
 
 /-- How the three `Finalize` implementations hand the values collected for one header over: the Envoy service
     joins them, the decision and the proxy service keep the first one only (known finding
@@ -122,14 +138,7 @@ def answer (ep : EP) (r : Run) : Outcome :=
 def handOver (ep : EP) (vs : List Bytes) : Bytes := if ep = .envoy then join comma vs else vs.head?.getD []
 
 /-- `answer` with the headers as the entry point really hands them over -/
-def delivered (ep : EP) (r : Run) : Outcome :=
-  let seen := r.view.map fun o => ({ obj := o, stable := true } : Seen)
-  match r.dec with
-  | .ok =>
-    if ep = .proxy && r.isDefault then { dec := .internal, seen, upHeaders := [], upCookies := [] }
-    else { dec := .ok, seen, upHeaders := r.ups.headers.map fun kv => (kv.1, handOver ep kv.2),
-           upCookies := r.ups.cookies }
-  | d => { dec := d, seen, upHeaders := [], upCookies := [] }
+def delivered (R : Respond) (lr : LReq) (ep : EP) (r : Run) : Outcome := answerWith (handOver ep) R lr ep r
 
 /-- no header was handed to the context twice -/
 def singleValued (r : Run) : Bool := r.ups.headers.all fun kv => kv.2.length ≤ 1
